@@ -121,6 +121,13 @@ inductive Variant
 /-- the pre-fix decorator -/
 abbrev tsPropsShared : Variant := .shared
 
+/-- what an attribute of a shared `HTTPError` object of `errors_map` holds: a plain value or the
+items of its header dict -/
+inductive SVal
+  | val (v : PVal)
+  | items (d : Dict)
+  deriving DecidableEq, Repr
+
 /-! ## heap -/
 
 structure Heap where
@@ -141,6 +148,10 @@ structure Heap where
   /-- the closure variable `local_store` of `ts_props.wrapper`, one per decorated class
   (`Variant.shared` only); `none` = Python `None` -/
   cell : Cls → Option Inst
+  /-- objects shared by ALL applications and threads: the `HTTPError` instances of
+  `DefaultConfig.errors_map`, by exception class name, attribute by attribute (`_status_code`,
+  `_status_line`, `body`, `_headers`, `_cookies`, `exception`, `traceback`) -/
+  errs : String → Attr → Option SVal
 
 /-- process start: nothing constructed -/
 def Heap.empty : Heap where
@@ -153,6 +164,21 @@ def Heap.empty : Heap where
   ncopies := fun _ _ => 0
   regs := fun _ _ _ => none
   cell := fun _ => none
+  errs := fun _ _ => none
+
+/-- the attributes of a shared error object, from its row of the generated table -/
+def errAttr (row : String × Int × String × String × List (String × String) × Bool) (k : Attr) : Option SVal :=
+  if k = "_status_code" then some (.val (.int row.2.1))
+  else if k = "_status_line" then some (.val (.str row.2.2.1))
+  else if k = "body" then some (.val (.str row.2.2.2.1))
+  else if k = "_headers" then some (.items (row.2.2.2.2.1.map fun kv => (kv.1, .str kv.2)))
+  else if k = "_cookies" ∨ k = "exception" ∨ k = "traceback" then some (.val .none)
+  else none
+
+/-- after `import ombott`: the shared error objects of `errors_map` exist (generated table) -/
+def Heap.boot : Heap :=
+  { Heap.empty with
+    errs := fun e k => (Gen.errorsMap.find? (·.1 = e)).bind fun row => errAttr row k }
 
 def upd {α β} [DecidableEq α] (f : α → β) (a : α) (b : β) : α → β :=
   fun x => if x = a then b else f x
@@ -179,6 +205,7 @@ inductive Upd
   | next (t : ThreadId) (a : AppId)
   | ncopies (t : ThreadId) (a : AppId)
   | reg (t : ThreadId) (a : AppId) (r : Reg) (v : Val)
+  | err (e : String) (k : Attr) (v : SVal)
 
 def Upd.apply (h : Heap) : Upd → Heap
   | .tls i t k v => { h with tls := upd3 h.tls i t k v }
@@ -190,6 +217,7 @@ def Upd.apply (h : Heap) : Upd → Heap
   | .next t a => { h with next := upd2 h.next t a (h.next t a + 1) }
   | .ncopies t a => { h with ncopies := upd2 h.ncopies t a (h.ncopies t a + 1) }
   | .reg t a r v => { h with regs := upd3 h.regs t a r (some v) }
+  | .err e k v => { h with errs := upd2 h.errs e k (some v) }
 
 def applyAll (h : Heap) (us : List Upd) : Heap := us.foldl Upd.apply h
 
@@ -278,6 +306,11 @@ inductive Access
   | dCopy (r dst : Reg)
   /-- `cls.__new__` of `Request.copy()`: a new instance, no store yet; returns its index -/
   | newCopy
+  /-- read an attribute of the shared `HTTPError` object `errors_map[e]` -/
+  | errGet (e : String) (k : Attr)
+  /-- write an attribute of a shared `HTTPError` object.  No code path of the tree as it is does
+  this; the step exists so that the theorems can name what they exclude (`Access.sharedOk`) -/
+  | errSet (e : String) (k : Attr) (v : SVal)
   deriving DecidableEq, Repr
 
 def resOf : Val → Res
@@ -381,6 +414,12 @@ def plan (v : Variant) (t : ThreadId) (a : AppId) (h : Heap) : Access → List U
       ([.dict o d, .next t a, .reg t a dst (.dict o)], .ref)
     | .error e => ([], .err e)
   | .newCopy => ([.ncopies t a], .val (.int (h.ncopies t a)))
+  | .errGet e k =>
+    match h.errs e k with
+    | some (.val x) => ([], .val x)
+    | some (.items d) => ([], .items d)
+    | none => ([], .err .attributeError)
+  | .errSet e k x => ([.err e k x], .val .none)
 
 /-- one atomic step of thread `t` in a handler / the serving code of application `a` -/
 def exec (v : Variant) (t : ThreadId) (a : AppId) (acc : Access) (h : Heap) : Heap × Res :=
@@ -438,8 +477,8 @@ structure Machine where
 def Machine.on (h : Heap) (progs : ThreadId → Prog) : Machine :=
   ⟨h, fun t => Thread.init (progs t), []⟩
 
-/-- process start: nothing constructed -/
-def Machine.start (progs : ThreadId → Prog) : Machine := Machine.on Heap.empty progs
+/-- process start: the module is imported, no application constructed -/
+def Machine.start (progs : ThreadId → Prog) : Machine := Machine.on Heap.boot progs
 
 /-- the interleaved run: the schedule is the list of thread ids, one entry per step -/
 def run (v : Variant) (m : Machine) : List ThreadId → Machine
@@ -489,7 +528,16 @@ def Access.attrOk : Access → Prop
   | .fget o k _ => k ∈ propsOf o.cls
   | .fset o k _ => k ∈ propsOf o.cls
   | .fdel o k => k ∈ propsOf o.cls
+  | .errSet _ _ _ => False          -- the shared error objects are never written
   | _ => True
+
+/-- the step does not write an object shared by all applications -/
+def Access.sharedOk : Access → Prop
+  | .errSet _ _ _ => False
+  | _ => True
+
+instance (acc : Access) : Decidable acc.sharedOk := by
+  cases acc <;> simp only [Access.sharedOk] <;> infer_instance
 
 instance (acc : Access) : Decidable acc.attrOk := by
   cases acc <;> simp only [Access.attrOk] <;> infer_instance
